@@ -57,6 +57,11 @@ def composed_examples(cls, count=8):
             hyp.explore(objects.strategy_for(ref), collect, Stats(), count, 20240917)
         except Exception:  # pylint: disable=broad-except
             pass
+    if ref.startswith('cryptoparser.tls.ldap:'):
+        from vf.gen import seeds  # pylint: disable=import-outside-toplevel
+        base = [bytes(b) for b in seeds.seeds_for(cls)] + out
+        for data in base[:6]:
+            out = out + [variant for variant in ber_length_variants(data) if variant not in out]
     if ref == 'cryptoparser.tls.record:SslRecord':
         out = out + [variant for data in out[:6] for variant in ssl2_three_byte_header_variants(data)]
     _CACHE[ref] = out
@@ -75,3 +80,15 @@ def ssl2_three_byte_header_variants(record):
         if length < (1 << 14):
             variants.append(bytes([(length >> 8) & 0x3f, length & 0xff, padding]) + body + b'\x00' * padding)
     return variants
+
+
+def ber_length_variants(message):
+    """The same BER value with its outermost length spelled differently: long form with one and with four length
+    octets, and the indefinite form closed by end-of-contents octets.  DER encoders (compose()) emit none of these,
+    a BER peer may send any."""
+    if len(message) < 2 or message[1] >= 0x80 or 2 + message[1] != len(message) or not message[0] & 0x20:
+        return []
+    tag, body = message[:1], message[2:]
+    return [tag + b'\x81' + bytes([len(body)]) + body,
+            tag + b'\x84' + len(body).to_bytes(4, 'big') + body,
+            tag + b'\x80' + body + b'\x00\x00']
